@@ -101,7 +101,19 @@ def accept_path(repo: Repo, chk: Check) -> None:
                     for x in facts
                 )
                 unbounded = any(norm.is_not(x.expr) and depends_on(x.expr, "$t[$_].bounds[$_]", binds={"t": template}) for x in facts)
-                ok = untouched and (le or unbounded)
+
+                def _is_le(e_: ast.expr) -> bool:
+                    m_ = norm.any_match(["$sb <= $tb"], e_)
+                    return m_ is not None and depends_on(m_["tb"], "$t[$_].bounds[$_]", binds={"t": template}) and depends_on(
+                        m_["sb"], "$s[$_].bounds[$_]", binds={"s": schedule})
+
+                def _is_unb(e_: ast.expr) -> bool:
+                    return norm.is_not(e_) and depends_on(e_, "$t[$_].bounds[$_]", binds={"t": template})
+
+                # one test for both classes: `not template_bound or schedule_bound <= template_bound`
+                either = any(isinstance(norm.primary(x.expr), ast.BoolOp) and isinstance(norm.primary(x.expr).op, ast.Or) and all(
+                    _is_le(d_) or _is_unb(d_) for d_ in norm.primary(x.expr).values) for x in facts)
+                ok = untouched and (le or unbounded or either)
                 if not ok:
                     bad = (f"untiled candidate {ast.unparse(cand)[:60]} reaches the recursion although neither `schedule bound <= template bound` "
                            "nor `template dimension unbounded` holds on that path")
